@@ -239,6 +239,12 @@ func (g *gen) applyUnlisted() {
 //	    the directives applied to any other element (object, interface, union, input object, field,
 //	    argument, enum value, input field).
 func (d *SDef) reach(everyPointer bool) map[string]bool {
+	starts := append([]string{d.Query, d.Mutation, d.Subscription}, d.Additional...)
+	return d.reachFrom(everyPointer, true, starts)
+}
+
+// reachFrom: the same from the given named types (and, with dirs, the listed directive definitions).
+func (d *SDef) reachFrom(everyPointer, dirs bool, starts []string) map[string]bool {
 	seen := map[string]bool{}
 	var visit func(n string)
 	visitIVs := func(ivs []InputVal) {
@@ -291,13 +297,12 @@ func (d *SDef) reach(everyPointer bool) map[string]bool {
 			visit(m)
 		}
 	}
-	for _, dd := range d.Dirs {
-		visitIVs(dd.Args)
+	if dirs {
+		for _, dd := range d.Dirs {
+			visitIVs(dd.Args)
+		}
 	}
-	visit(d.Query)
-	visit(d.Mutation)
-	visit(d.Subscription)
-	for _, a := range d.Additional {
+	for _, a := range starts {
 		visit(a)
 	}
 	return seen
